@@ -107,6 +107,7 @@ pub fn bytes_eq(a: &[u8], b: &[u8]) -> (r: bool) ensures r == (a@ == b@) { unimp
 
 // reader.read_text(end): the text content of a leaf element (ASSUMED: consumes events, records one TextOf item)
 pub struct CowStr { pub v: Vec<u8> }
+impl PartialEq for CowStr { #[verifier::external_body] fn eq(&self, other: &Self) -> (r: bool) { unimplemented!() } }
 pub struct ParseIntError;
 impl NsReader {
     #[verifier::external_body]
